@@ -628,9 +628,32 @@ class Eval:
             for a in vs:
                 if a[0] == "opt":
                     try:
-                        extra = Eval.presence_hook(self, env, bi)
+                        extra = set(Eval.presence_hook(self, env, bi))
                     except RecursionError:
                         extra = set()
+                    # a Some(..) produced inside a search loop: present iff SOME element satisfies the conditions
+                    for h, blk in body.natural_loops().items():
+                        for lb in sorted(blk):
+                            tt = body.blocks[lb]["term"]
+                            if tt["k"] == "call" and "fn" in tt and callee_id(tt["fn"]) == "std::iter::Iterator::next":
+                                # the site lies in the loop, or leaves it from the loop body (early return):
+                                # it is only reachable through the `Some` edge of this next()
+                                inside = bi in blk
+                                if not inside:
+                                    for b2 in sorted(blk):
+                                        t2 = body.blocks[b2]["term"]
+                                        if t2["k"] == "switch":
+                                            for st in reversed(body.blocks[b2]["stmts"]):
+                                                if st["k"] == "assign" and st["rv"]["k"] == "discr" and st["rv"]["place"]["l"] == tt["dest"]["l"]:
+                                                    some = [v for v, n in st["rv"]["variants"] if n == "Some"]
+                                                    listed = dict((v, tg) for v, tg in t2["targets"])
+                                                    if some:
+                                                        tg = listed.get(some[0], t2["otherwise"])
+                                                        if body.edge_dominates((b2, tg), bi):
+                                                            inside = True
+                                                    break
+                                if inside:
+                                    extra.add(("bound", self.operand(env, tt["args"][0], (lb, None))))
                     a = ("opt", a[1], frozenset(a[2]) | frozenset(extra))
                 if a != ("unreachable",) and a not in alts:
                     alts.append(a)
